@@ -60,6 +60,36 @@ def run(chk):
                 nm = f'C15/E-UNI {inst.name}: sanitised BDD independent of k for {S.show(f)}'
                 chk.obligation(nm, 'E-UNI', 'violated'); chk.violation(nm, 'depends-on-k', {'instance': inst.name, 'aeon': inst.aeon, 'formula': S.show(f), 'bdds': per_k}, 'sanitised result differs between numbers of spare variable sets')
             elif per_k: chk.obligation(f'C15/E-UNI {inst.name}: sanitised BDD identical for k in {sorted(per_k)}: {S.show(f)}', 'native', 'holds', 0.0, False)
+    # batches through the sanitising multi-formula / multi-tree entry points: same length as the raw batch and, position by
+    # position, the same set (lists with adjacent repeats, alpha-variants that rename to one tree, non-adjacent repeats)
+    chk.bounds['E-UNI batches'] = 'lists [f,f,g], [g,f,f], [f,g,f], [f,alpha(f),g], [f,f,f,g] through multi / trees / ext_multi vs their _dirty twins: equal length, miter per position'
+    bq = [f for f in sib + taut if S.quant_depth(f) >= 1][:3 if not thorough else 8]
+    bg = [('EX', P0), ('AG', ('EF', P1)), ('bind', 'x', None, ('EX', ('var', 'x')))]
+    for inst in UC.instances(['U2', 'C2'] if thorough else ['C2']):
+        for bi, f in enumerate(bq):
+            g = bg[bi % len(bg)]; fa = S.distinct_names(f)
+            for lst in ([f, f, g], [g, f, f], [f, g, f], [f, fa, g], [f, f, f, g]):
+                k = max(S.quant_depth(x) for x in lst)
+                texts = [S.show(x) for x in lst]
+                for san_e, raw_e in (('multi', 'multi_dirty'), ('trees', 'trees_dirty'), ('ext_multi', 'ext_multi_dirty')):
+                    sess = UC.Session(inst, k, [{'phis': lst, 'formulas': texts, 'entry': san_e}, {'phis': lst, 'formulas': texts, 'entry': raw_e}], plain=True)
+                    name = f'C15/E-UNI {inst.name} k={k}: batch {texts} through {san_e} == {raw_e} position by position'
+                    rs, rr = sess.runs[0].get('ok'), sess.runs[1].get('ok')
+                    if not isinstance(rs, list) or not isinstance(rr, list) or len(rs) != len(lst) or len(rr) != len(lst):
+                        chk.obligation(name, 'native', 'violated', 0.0, False)
+                        chk.violation(name, 'sanitize-batch-shape', {'instance': inst.name, 'aeon': inst.aeon, 'formulas': texts, 'k': k, 'entry': san_e, 'answers': [len(x) if isinstance(x, list) else {kk: vv for kk, vv in r.items() if kk != 'ok'} for x, r in ((rs, sess.runs[0]), (rr, sess.runs[1]))]},
+                                      f'{san_e} returns {len(rs) if isinstance(rs, list) else "no list"} results and {raw_e} {len(rr) if isinstance(rr, list) else "no list"} for {len(lst)} formulas {texts}')
+                        continue
+                    for i in range(len(lst)):
+                        v = uni.decide([sess.dec.unit, sess.dec_plain.bdd(rs[i]) != sess.dec.bdd(rr[i])]); chk.queries += 1
+                        nm = name + f' [{i}]'
+                        if v.status == 'unsat': chk.obligation(nm, 'E-UNI', 'holds', v.seconds, True, {'formulas': texts, 'position': i, 'instance': inst.name, 'verdict': 'unsat (miter sanitised vs raw)'})
+                        elif v.status == 'sat':
+                            chk.native_replays += 1
+                            a1 = UC.eval_bdd(rs[i], [bool(z3.is_true(v.model.eval(x, model_completion=True))) for x in sess.dec_plain.X]); a2 = UC.eval_bdd(rr[i], [bool(z3.is_true(v.model.eval(x, model_completion=True))) for x in sess.dec.X])
+                            if a1 != a2: chk.obligation(nm, 'E-UNI', 'violated'); chk.violation(nm, 'sanitize-batch-miter', {'instance': inst.name, 'aeon': inst.aeon, 'formulas': texts, 'k': k, 'entry': san_e, 'position': i}, f'position {i} of {san_e} differs from {raw_e} for {texts}')
+                            else: chk.obligation(nm + ' (does not reproduce)', 'E-UNI', 'inconclusive')
+                        else: chk.obligation(nm, 'E-UNI', 'timeout', v.seconds)
     # E-MIR: sanitising entry point vs raw entry point, k = depth and depth + 1
     tasks = []
     fs = c01.dispatch_formulas()[::2 if not thorough else 1]
